@@ -5,7 +5,7 @@ use crate::fw::*;
 use bio::io::fasta::IndexedReader;
 
 pub struct C12;
-const N_DIRECTED: u64 = 15;
+const N_DIRECTED: u64 = 16;
 
 struct FileSpec {
     file: Vec<u8>,
@@ -16,6 +16,61 @@ struct FileSpec {
     crlf: bool,
     /// (offset of first base, bytes per full line) per record
     layout: Vec<(usize, usize)>,
+}
+
+/// A FASTA file that exists only as a function of the offset: header ">r\n", then `lines` lines of `width` bases + LF.
+/// It lets the reader be asked for slices beyond 2^32 lines / bytes without 10 GB of memory.
+struct VirtualFasta {
+    pos: u64,
+    width: u64,
+    lines: u64,
+}
+
+impl VirtualFasta {
+    fn base(i: u64) -> u8 {
+        b"ACGT"[((i.wrapping_mul(0x9E37_79B9_7F4A_7C15) >> 33) % 4) as usize]
+    }
+    fn len(&self) -> u64 {
+        3 + self.lines * (self.width + 1)
+    }
+    fn byte(&self, off: u64) -> u8 {
+        if off < 3 {
+            return b">r\n"[off as usize];
+        }
+        let k = off - 3;
+        let (line, col) = (k / (self.width + 1), k % (self.width + 1));
+        if col == self.width {
+            b'\n'
+        } else {
+            Self::base(line * self.width + col)
+        }
+    }
+}
+
+impl std::io::Read for VirtualFasta {
+    fn read(&mut self, buf: &mut [u8]) -> std::io::Result<usize> {
+        let n = (buf.len() as u64).min(self.len().saturating_sub(self.pos)) as usize;
+        for (i, b) in buf[..n].iter_mut().enumerate() {
+            *b = self.byte(self.pos + i as u64);
+        }
+        self.pos += n as u64;
+        Ok(n)
+    }
+}
+
+impl std::io::Seek for VirtualFasta {
+    fn seek(&mut self, p: std::io::SeekFrom) -> std::io::Result<u64> {
+        let np = match p {
+            std::io::SeekFrom::Start(o) => o as i128,
+            std::io::SeekFrom::End(d) => self.len() as i128 + d as i128,
+            std::io::SeekFrom::Current(d) => self.pos as i128 + d as i128,
+        };
+        if np < 0 {
+            return Err(std::io::Error::new(std::io::ErrorKind::InvalidInput, "seek before start"));
+        }
+        self.pos = np as u64;
+        Ok(self.pos)
+    }
 }
 
 fn build_file(rng: &mut Rng, nrec: usize, maxlen: usize, crlf: bool, final_newline: bool, exact_multiple: bool) -> FileSpec {
@@ -406,6 +461,57 @@ impl Monitor for C12 {
         let maxlen = ctx.by_tier(300, 2000, 40_000);
         if g < N_DIRECTED {
             let crlf = g % 2 == 1;
+            if g == 15 {
+                // slices that start beyond 2^32 lines / beyond byte offset 2^32 of a (virtual) 5-10 GB file
+                if ctx.tiny() {
+                    return;
+                }
+                for (width, lines) in [(1u64, 5_000_000_000u64), (3, 3_000_000_000), (60, 100_000_000)] {
+                    let total = width * lines;
+                    for k in 0..6 {
+                        let lo = match k {
+                            0 => (1u64 << 32) * width,
+                            1 => (1u64 << 32) * width + rng.below(1000),
+                            2 => (1u64 << 32) + rng.below(1000),
+                            3 => total - 1 - rng.below(500),
+                            4 => (1u64 << 32) - rng.below(50) - 1,
+                            _ => rng.below(total - 1000),
+                        }
+                        .min(total - 1);
+                        let hi = (lo + 1 + rng.below(200)).min(total);
+                        let fai = format!("r\t{}\t3\t{}\t{}\n", total, width, width + 1);
+                        let by_iter = k % 2 == 1;
+                        let r = guard(move || -> Result<Vec<u8>, String> {
+                            let mut ir = IndexedReader::new(VirtualFasta { pos: 0, width, lines }, fai.as_bytes()).map_err(|e| e.to_string())?;
+                            ir.fetch("r", lo, hi).map_err(|e| e.to_string())?;
+                            let mut buf = vec![];
+                            if by_iter {
+                                for b in ir.read_iter().map_err(|e| e.to_string())? {
+                                    buf.push(b.map_err(|e| e.to_string())?);
+                                }
+                            } else {
+                                ir.read(&mut buf).map_err(|e| e.to_string())?;
+                            }
+                            Ok(buf)
+                        });
+                        ctx.eval(1);
+                        let expected: Vec<u8> = (lo..hi).map(VirtualFasta::base).collect();
+                        let desc = |w: String| Obj::new().s("case", "virtual file, slice beyond 2^32").u("line_bases", width).u("lines", lines).u("start", lo).u("stop", hi).s("api", if by_iter { "read_iter" } else { "read" }).s("what", &w).done();
+                        match r {
+                            Err(p) => ctx.violation(&format!("ifasta:huge-file:panic:{}", panic_site(&p)), desc(p)),
+                            Ok(Err(e)) => ctx.violation("ifasta:valid-request-rejected", desc(e)),
+                            Ok(Ok(got)) => {
+                                if got != expected {
+                                    ctx.violation("ifasta:wrong-slice", desc(format!("got {} bases, first {:?}; expected {} bases, first {:?}", got.len(), &got[..got.len().min(8)], expected.len(), &expected[..expected.len().min(8)])));
+                                }
+                            }
+                        }
+                        ctx.count("slices_fetched_beyond_2^32_lines_or_bytes", (lo / width >= 1 << 32 || lo >= 1 << 32) as u64);
+                    }
+                }
+                ctx.shape(true, &("C12", "beyond-2^32"));
+                return;
+            }
             if g == 14 {
                 // an index that promises far more than the file (or memory) holds: an error, not a panic or an abort
                 let file = b">big promise\nACGTACGTAC\nACGTACGTAC\nACGT\n".to_vec();
